@@ -37,10 +37,10 @@ func VerifC20_v2_unite() {
 		if nocopy {
 			d.Release()
 		} else {
-			vTouchW(s)
+			vTouchW(s[:cap(s)]) // modifying includes appending into the spare capacity of the slice the consumer owns
 			kept = append(kept, s)
 			for _, k := range kept {
-				vTouchW(k) // an old slice is modified while the discipline keeps working
+				vTouchW(k[:cap(k)]) // an old slice is modified while the discipline keeps working
 			}
 		}
 		vRole("goroutine0")
@@ -66,13 +66,13 @@ func VerifC20_v2_unite() {
 	for s := range d.Output() {
 		vTouchR(s)
 		if !nocopy {
-			vTouchW(s)
+			vTouchW(s[:cap(s)]) // modifying includes appending into the spare capacity of the slice the consumer owns
 		}
 		kept = append(kept, s)
 	}
 	if !nocopy {
 		for _, k := range kept {
-			vTouchW(k)
+			vTouchW(k[:cap(k)])
 		}
 	}
 	// the producer may still READ the slices it has sent (it must not modify them)
